@@ -79,11 +79,27 @@ TwiceVerdict(e) ==
           ELSE IF e.second.matches # e.matches \/ e.second.items # e.items THEN V("second-extraction-changed-matches", Len(e.matches), Len(e.second.matches))
           ELSE OK
 
+\* C12 on a second call on the same object: soundness is per answer.  After a successful first extraction the second
+\* call either fails (the match lists are then the first call's, or empty) or returns the SAME root, matches and
+\* positions; after a failed first extraction it fails again.
+AgainVerdict(e) ==
+  LET v1 == ExtractVerdict(e) IN
+  IF v1 # OK THEN v1
+  ELSE IF ~e.ok THEN (IF e.second.ok THEN V("second-extraction-accepts-what-the-first-refused", FALSE, TRUE) ELSE OK)
+  ELSE IF e.second.ok THEN
+         IF e.second.root # e.root THEN V("second-extraction-root", Take(e.root, 4), Take(e.second.root, 4))
+         ELSE IF e.second.matches # e.matches \/ e.second.items # e.items THEN V("second-extraction-changed-matches", Len(e.matches), Len(e.second.matches))
+         ELSE OK
+  ELSE IF ~((e.second.matches = e.matches /\ e.second.items = e.items) \/ (Len(e.second.matches) = 0 /\ Len(e.second.items) = 0))
+         THEN V("second-extraction-changed-matches", Len(e.matches), Len(e.second.matches))
+  ELSE OK
+
 VerdictPM(p, e, s) ==
   IF "panic" \in DOMAIN e THEN V("panic", e.op, e.panic)
   ELSE CASE e.op = "ExtractMsg" -> ExtractVerdict(e)
          [] e.op = "Proof" -> ProofVerdict(e)
          [] e.op = "ExtractTwice" -> TwiceVerdict(e)
+         [] e.op = "ExtractAgain" -> AgainVerdict(e)
          [] OTHER -> V("unknown-op", e.op, e.op)
 
 InitPM == TInit(0)
